@@ -20,6 +20,13 @@ CHECKS['C10'] = dict(
          'token mutations must end in a number/quantity or UnitsParseError. Exploration: exhaustive for the name table, sampled for expressions.',
     note='Trusted: the transcription of the unit table from the standards; repository-documented values for u, eV, molecule, lbf, BTU. Float tolerance 1e-12 (1e-9 with fractional powers).',
     ref='DESIGN.md C10')
+CHECKS['C11'] = dict(
+    technique='exhaustive over ordered dimension-class pairs x operations against a (magnitude, exponent-vector) reference model; Hypothesis for magnitudes, arrays and operator chains',
+    text='Every ordered pair of operand classes (7 base + 8 derived dimensions, plain number, bare zero) x {+,-,<,<=,>,>=,==,!=,in_units,*,/} x a pool of magnitude pairs is executed and compared with '
+         'a tuple model (UnitsError / False / True for incompatible operands, magnitude arithmetic otherwise); unary -, abs and ** with integer, negative and fractional exponents; random '
+         'magnitudes, array quantities, plain lists/arrays and chains whose exponents cancel only up to round-off. Exploration: exhaustive over class pairs, sampled over magnitudes.',
+    note='Trusted: Python/numpy float arithmetic. Operands built from SI-coherent unit strings so the SI magnitude is exactly the generated number (asserted at start-up).',
+    ref='DESIGN.md C11')
 NOT_YET = {}
 
 def main():
